@@ -34,6 +34,7 @@ class D(Driver):
         ("picosvg.svg", "SVG.checkpicosvg"),
         ("picosvg.svg", "SVG._simplify"),
         ("picosvg.svg", "_try_remove_group"),
+        ("picosvg.svg", "_is_removable_group"),
         ("picosvg.svg", "SVG.evenodd_to_nonzero_winding"),
         ("picosvg.svg", "SVG.normalize_opacity"),
         ("picosvg.svg", "SVG.remove_nonsvg_content"),
